@@ -87,7 +87,7 @@ type conf struct {
 }
 
 func main() {
-	run := lib.Start("C19", "the real binary run with generated secrets (16-20 characters, each of 27 special characters in turn incl. : @ / ? # % & + = space quotes backslash $ backtick) in --basic-auth, --api-basic-auth, --proxy userinfo, several --credentials entries and inline data: key material (--tls-key-file, --mitm-cakey-file, --cacert-file), supplied as flags / FORWARDER_* environment / YAML / JSON config file, at log levels error, info, debug x formats text, json x stdout or --log-file x --log-http none, short-url, url, errors (in a third of the configurations as 'proxy:<mode>,api:headers|body', each module keeping its own mode); traffic: authenticated request via the upstream proxy, request with site credentials, an Upgrade answered 101 with site credentials, CONNECT + MITM request, 407, 403, 502 error responses, CONNECTs that the upstream proxy refuses, drops without an answer or answers with garbage, /configz; everything printed, logged, served or returned is scanned for each secret in raw, URL-escaped, quoted and base64 (std, url, 3 alignments) forms and for 24-character windows of key material; non-secret companions must be visible; distinct = (channel, level, format, log target, log-http mode, special character) signatures")
+	run := lib.Start("C19", "the real binary run with generated secrets (16-20 characters, each of 27 special characters in turn incl. : @ / ? # % & + = space quotes backslash $ backtick) in --basic-auth, --api-basic-auth, --proxy userinfo, several --credentials entries (ports 80, 8080, the wildcard written '*' and '0', 65535) and inline data: key material (--tls-key-file, --mitm-cakey-file, --cacert-file), supplied as flags / FORWARDER_* environment / YAML / JSON config file, at log levels error, info, debug x formats text, json x stdout or --log-file x --log-http none, short-url, url, errors (in a third of the configurations as 'proxy:<mode>,api:headers|body', each module keeping its own mode); traffic: authenticated request via the upstream proxy, request with site credentials, an Upgrade answered 101 with site credentials, CONNECT + MITM request, 407, 403, 502 error responses, CONNECTs that the upstream proxy refuses, drops without an answer or answers with garbage, /configz; everything printed, logged, served or returned is scanned for each secret in raw, URL-escaped, quoted and base64 (std, url, 3 alignments) forms and for 24-character windows of key material; non-secret companions must be visible; distinct = (channel, level, format, log target, log-http mode, special character) signatures")
 	root := run.RNG()
 	n := run.N(36, 1300)
 	var wg sync.WaitGroup
@@ -136,7 +136,11 @@ func oneConfig(run *lib.Run, r *lib.RNG, idx int) {
 	if idx%6 == 5 {
 		site2 = genSecret(r, "sitetwo", ",\"", idx+17) // this configuration must get as far as the duplicate check
 	}
-	c.secrets = []secret{basic, api, up, site1, site2}
+	// entries whose port is written in the boundary forms: wildcard, 0 (the same wildcard), 65535
+	site3 := genSecret(r, "sitethree", ",\"", idx+19)
+	site4 := genSecret(r, "sitefour", ",\"", idx+23)
+	site5 := genSecret(r, "sitefive", ",\"", idx+29)
+	c.secrets = []secret{basic, api, up, site1, site2, site3, site4, site5}
 
 	ca := lib.NewCA("verif CA")
 	// scripted upstream proxy demanding its credentials
@@ -176,7 +180,8 @@ func oneConfig(run *lib.Run, r *lib.RNG, idx int) {
 		"basic-auth":      {basic.user + ":" + basic.pass},
 		"api-basic-auth":  {api.user + ":" + api.pass},
 		"proxy":           {"http://" + up.user + ":" + up.pass + "@" + upstream.Addr},
-		"credentials":     {site1.user + ":" + site1.pass + "@site-one.test:80", site2.user + ":" + site2.pass + "@*:8080"},
+		"credentials":     {site1.user + ":" + site1.pass + "@site-one.test:80", site2.user + ":" + site2.pass + "@*:8080",
+			site3.user + ":" + site3.pass + "@wild-three.test:*", site4.user + ":" + site4.pass + "@wild-four.test:0", site5.user + ":" + site5.pass + "@edge-five.test:65535"},
 		"deny-domains":    {`denied\.test`},
 		"log-level":       {c.level},
 		"log-format":      {c.format},
